@@ -1,4 +1,4 @@
-import Lemmas.NumDest
+import Lemmas.NumFrame
 import Lemmas.Portions
 /-! Allotments at bytecode level.  A portion constant of the text is de-duplicated against the resource table by
 `ValueEquals` (`big.Rat.Cmp == 0`), so the VM may compute with another REPRESENTATION of the same rational than
@@ -393,5 +393,106 @@ theorem allotment_ok {R : List Resource} {V : List BVal} {env : VEnv} (cx : Ctx 
                   rw [hstep m, ← hvlen, hpop m.stack]
                   simp only [hn']
                   rfl
+
+/-! ### `ALLOC` and `BUMP n` -/
+
+theorem step_alloc (V : List BVal) (m : Machine) (S : List BVal) (ks : List (Acct × Asset)) (b : Bal) (al : List Rat') (s : Asset) (n : Int) :
+    step V .alloc (m.upd (.allotment al :: .mon s n :: S) ks b) = .ok (m.upd ((allocate al n).map (fun x => BVal.mon s x) ++ S) ks b) := rfl
+
+theorem getElem?_append_length {α} (xs : List α) (y : α) (S : List α) : (xs ++ y :: S)[xs.length]? = some y := by
+  induction xs with
+  | nil => rfl
+  | cons x xs ih => simp [ih]
+
+theorem eraseIdx_append_length {α} (xs : List α) (y : α) (S : List α) : (xs ++ y :: S).eraseIdx xs.length = xs ++ S := by
+  induction xs with
+  | nil => rfl
+  | cons x xs ih => simp [ih]
+
+/-- `BUMP n` brings the value under `n` others to the top -/
+theorem step_bumpN (V : List BVal) (m : Machine) (S : List BVal) (ks : List (Acct × Asset)) (b : Bal) (xs : List BVal) (y : BVal)
+    (hn : xs.length < 18446744073709551616) :
+    step V .bump (m.upd (.num xs.length :: (xs ++ y :: S)) ks b) = .ok (m.upd (y :: (xs ++ S)) ks b) := by
+  simp only [step, popNum, Machine.upd, u64_nat hn, getElem?_append_length, eraseIdx_append_length]
+
+theorem allotPortions_length : (items : AllotList) → (allotPortions items).length = allotLen items
+  | .nil => rfl
+  | .cons _ _ rest => by simp [allotPortions, allotLen, allotPortions_length rest]
+
+/-! ### parsed portions have a positive denominator -/
+
+theorem parsePortion_shape (s : String) :
+    parsePortion s = none ∨ ∃ n d : Nat, parsePortion s = if d = 0 then none else if n ≤ d then some (⟨n, d⟩ : Rat') else none := by
+  unfold parsePortion
+  simp only
+  by_cases hpct : s.endsWith "%" = true
+  · rw [if_pos hpct]
+    generalize ((s.dropEnd 1).toString.splitOn ".") = l
+    split
+    · by_cases h : isDigitStr ‹String› = true
+      · rw [if_pos h]; exact Or.inr ⟨_, _, rfl⟩
+      · rw [if_neg h]; exact Or.inl rfl
+    · rename_i i f
+      by_cases h : (isDigitStr i && isDigitStr f) = true
+      · rw [if_pos h]; exact Or.inr ⟨_, _, rfl⟩
+      · rw [if_neg h]; exact Or.inl rfl
+    · exact Or.inl rfl
+  · rw [if_neg hpct]
+    generalize (s.splitOn "/") = l
+    split
+    · rename_i a b
+      generalize (if a.endsWith " " = true then (a.dropEnd 1).toString else a) = a'
+      generalize (if b.startsWith " " = true then (b.drop 1).toString else b) = b'
+      by_cases h : (isDigitStr a' && isDigitStr b') = true
+      · rw [if_pos h]; exact Or.inr ⟨_, _, rfl⟩
+      · rw [if_neg h]; exact Or.inl rfl
+    · exact Or.inl rfl
+
+theorem parsePortion_pos {s : String} {r : Rat'} (h : parsePortion s = some r) : 0 < r.den := by
+  rcases parsePortion_shape s with h0 | ⟨n, d, h1⟩
+  · rw [h0] at h; cases h
+  · rw [h1] at h
+    split at h
+    · cases h
+    · split at h
+      · simp only [Option.some.injEq] at h; subst h; show 0 < d; omega
+      · cases h
+
+theorem parseValue_pos {ty : Ty} {s : String} {r : Rat'} (h : parseValue ty s = some (.portion r)) : 0 < r.den := by
+  cases ty <;> simp only [parseValue] at h
+  · split at h <;> cases h
+  · split at h <;> cases h
+  · simp only [Option.map_eq_some_iff] at h
+    obtain ⟨n, _, hn⟩ := h; cases hn
+  · cases h
+  · generalize (splitOnC s ' ') = l at h
+    split at h
+    · split at h
+      · split at h <;> cases h
+      · cases h
+    · cases h
+  · simp only [Option.map_eq_some_iff] at h
+    obtain ⟨q, hq, hn⟩ := h
+    cases hn
+    exact parsePortion_pos hq
+
+/-- a portion value has a positive denominator -/
+def ValPos (v : Val) : Prop := ∀ r, v = .portion r → 0 < r.den
+
+theorem parseValue_valPos {ty : Ty} {s : String} {v : Val} (h : parseValue ty s = some v) : ValPos v := by
+  intro r hr; subst hr; exact parseValue_pos h
+
+theorem VPos.snoc {V : List BVal} (h : VPos V) {v : BVal} (hv : ∀ r, v = .portion r → 0 < r.den) : VPos (V ++ [v]) := by
+  intro i r hi
+  rcases Nat.lt_trichotomy i V.length with hlt | heq | hgt
+  · rw [List.getElem?_append_left hlt] at hi; exact h i r hi
+  · subst heq
+    rw [List.getElem?_append_right (Nat.le_refl _)] at hi
+    simp only [Nat.sub_self, List.getElem?_cons_zero, Option.some.injEq] at hi
+    exact hv r hi
+  · rw [List.getElem?_eq_none (by simp; omega)] at hi; cases hi
+
+/-- every portion constant of the resource table has a positive denominator -/
+def TablePos (rs : List Resource) : Prop := ∀ r, Resource.const (.portion r) ∈ rs → 0 < r.den
 
 end Num
